@@ -303,6 +303,7 @@ package hackpadfs
 
 //@   loop 1 invariant "bounds" 0 <= i && i <= len(path) && VP(path) && fs != nil && !implements(fs, MkdirAllFS) && !implements(fs, MountFS)
 //@   loop 1 invariant "quiet" implies(!contains(path, "/"), world() == old(world()))
+//@   loop 1 decreases len(path) - i
 //@   ensures "native" implies(implements(fs, MkdirAllFS), err == old(ret("hackpadfs.(MkdirAllFS).MkdirAll", 0, fs, path, perm)) &&
 //@                      world() == old(worldAfter("hackpadfs.(MkdirAllFS).MkdirAll", fs, path, perm)))
 //@   ensures "mount" implies(!implements(fs, MkdirAllFS) && implements(fs, MountFS), translated(err, old(ret("hackpadfs.MkdirAll", 0, mountOf(fs, path), subOf(fs, path), perm)), path, old(subOf(fs, path))) &&
@@ -329,9 +330,14 @@ package hackpadfs
 //@   props C08 C05
 //@   deterministic
 //@   requires fs != nil
+//@   propagates [C08] removeAll
+//@   propagates [C08] ReadDir
+//@   propagates [C08] Stat unless errIs(e, ErrNotExist)
+//@   propagates [C08] Remove unless errIs(e, ErrNotExist)
 //@   modifies world()
 //@   loop 1 invariant "any" fs != nil && rangeindex >= -1 && rangeindex < max(len(dir), 1) && (len(dir) > 0 || rangeindex == -1) &&
 //@                      (len(dir) > 0 || world() == old(raW2(world(), fs, path))) && dir == old(raList(world(), fs, path))
+//@   loop 1 invariant "all-children-so-far-removed" !failed("removeAll") && !failed("Stat") && !failed("ReadDir") && !failed("Remove")
 //@   loop 1 invariant "first" implies(rangeindex == -1, world() == old(raW2(world(), fs, path)))
 //@   loop 1 invariant "first-ok" implies(rangeindex >= 0, raChildErr(old(raW2(world(), fs, path)), fs, path, dir[0]) == nil)
 //@   loop 1 modifies world()
